@@ -258,7 +258,9 @@ class BuiltinMixin:
     def list_slice(self, lst, lo, hi, step, st):
         ety = lst.ty.args[0]
         n = self.list_len(lst, st)
-        if step is not None and not (z3.is_int_value(step.t) or (step.ty == NONE)):
+        if step is not None and step.ty != NONE:
+            step = Val(step.ty, z3.simplify(step.t))
+        if step is not None and not (step.ty == NONE or z3.is_int_value(step.t)):
             raise Unsupported("symbolic slice step")
         stepv = 1 if (step is None or step.ty == NONE) else step.t.as_long()
         if ety is None:
@@ -624,14 +626,25 @@ class BuiltinMixin:
         return False
 
     def x_bi_max(self, args, kw, st, node):
-        return self._minmax(args, st, True)
+        return self._minmax(args, st, True, node)
 
     def x_bi_min(self, args, kw, st, node):
-        return self._minmax(args, st, False)
+        return self._minmax(args, st, False, node)
 
-    def _minmax(self, args, st, is_max):
+    def _minmax(self, args, st, is_max, node=None):
         if len(args) == 1 and args[0].ty.name == "Tuple":
             args = args[0].t
+        if len(args) == 1 and args[0].ty.name == "List" and args[0].ty.args[0] == INT:
+            # max / min of a list of ints of unknown length: an element that bounds all the others (ValueError when empty)
+            lst = args[0]
+            n = self.list_len(lst, st)
+            st.raise_if(n <= 0, "ValueError", getattr(node, "lineno", None))
+            items = self.list_items(lst, st)
+            m, w, j = fresh("mx", I), fresh("mx_at", I), fresh("q_mx", I)
+            st.assume(z3.And(0 <= w, w < n, z3.Select(items, w) == m))
+            st.assume(z3.ForAll([j], z3.Implies(z3.And(0 <= j, j < n), (z3.Select(items, j) <= m) if is_max else (z3.Select(items, j) >= m)),
+                                patterns=[z3.Select(items, j)]))
+            return Val(INT, m)
         if len(args) < 2:
             raise Unsupported("max/min over a collection")
         res = args[0]
